@@ -39,11 +39,21 @@ func (node *tagBlockNode) Execute(ctx *ExecutionContext, writer TemplateWriter) 
 	}
 
 	blockWrapper := blockWrappers[lenBlockWrappers-1]
+
+	// "block" describes this block while its body is executed; afterwards it
+	// describes the enclosing block again (if there's any), whose block.Super
+	// would otherwise yield the parent definition of this block from here on.
+	enclosingBlock, hasEnclosingBlock := ctx.Private["block"]
 	ctx.Private["block"] = tagBlockInformation{
 		ctx:      ctx,
 		wrappers: blockWrappers[0 : lenBlockWrappers-1],
 	}
 	err := blockWrapper.Execute(ctx, writer)
+	if hasEnclosingBlock {
+		ctx.Private["block"] = enclosingBlock
+	} else {
+		delete(ctx.Private, "block")
+	}
 	if err != nil {
 		return err
 	}
